@@ -121,6 +121,10 @@ class C11(Harness):
             ctx.assume(hs[-1] <= 2 * SP + 1)
             inp["fh"] = hs
             inp["fh_in_fit"] = bool(ctx.fresh_bool("fh_in_fit"))
+            if cell["wlmode"] == "none" and cell["strategy"] in ("mean", "drift") and not cell["seasonal"] and nn >= 3:
+                # the series may arrive in two pieces (fit, then update with the default re-estimation): the "whole
+                # training series" window then is the whole series seen so far
+                inp["via_update"] = bool(ctx.fresh_bool("via_update"))
             if cell["strategy"] == "mean" and not cell["seasonal"] and nn >= 2:
                 # one observation may be missing: the window mean is the mean of the observed values in the window
                 npos = ctx.fresh_int("nan_pos")  # none, the newest or the oldest observation
@@ -178,7 +182,11 @@ class C11(Harness):
             else:
                 f = NF(strategy=cell["strategy"], sp=1, window_length=inp["wl"])
             try:
-                if inp.get("fh_in_fit"):
+                if inp.get("via_update"):
+                    f.fit(y.iloc[:-1])
+                    f.update(y.iloc[-1:])
+                    pred = f.predict(fh)
+                elif inp.get("fh_in_fit"):
                     f.fit(y, fh=fh)
                     pred = f.predict()
                 else:
@@ -200,12 +208,21 @@ class C11(Harness):
         if kind == "poly":
             PF = W.load(TREND).PolynomialTrendForecaster
             f = PF(degree=cell["degree"], with_intercept=cell["icpt"])
-            f.fit(y)
+            if inp["u"]:
+                # one horizon object, given at fit and resolved again after the cutoff has moved
+                FHc = W.load("sktime.forecasting.base").ForecastingHorizon
+                fh_obj = FHc(np.array(inp["fh"]))
+                f.fit(y, fh=fh_obj)
+                f.predict()
+            else:
+                f.fit(y)
             if inp["u"]:
                 n0 = inp["n"]
                 idx_u = pd.RangeIndex(inp["s0"] + n0, inp["s0"] + n0 + len(inp["u"])) if inp["range_index"] else pd.Index([inp["s0"] + n0 + i for i in range(len(inp["u"]))])
                 f.update(pd.Series(inp["u"], index=idx_u), update_params=False)
-            pred = f.predict(fh)
+                pred = f.predict()
+            else:
+                pred = f.predict(fh)
             return {"rejected": False, "index": L(pred.index), "values": L(pred.values), "cutoff": S(f.cutoff)}
         if kind == "sm":
             ad = W.load(SMAD)
